@@ -19,7 +19,7 @@ func TestEngine(t *testing.T) {
 	start, _ := strconv.Atoi(os.Getenv("VERIF_START"))
 	wd := vc.NewWatchdog(col, 60*time.Second)
 	wd.Attribute = func(string) string {
-		if run_.Prop == "C17" || run_.Prop == "C19" {
+		if run_.Prop == "C17" || run_.Prop == "C19" || run_.Prop == "C20" {
 			return run_.Prop
 		}
 		return "C08"
@@ -102,6 +102,20 @@ func TestEngine(t *testing.T) {
 			vc.Scn(id)
 			wd.Begin(id, nil)
 			runC08Txt(t, col, id, r)
+			wd.End()
+		}
+	}
+	if run_.Prop == "" || run_.Prop == "C20" {
+		n := run_.N(20, 600)
+		for i := 0; i < n; i++ {
+			if !run_.Mine(i) {
+				continue
+			}
+			r := vc.NewRand(run_.Seed, engine+"-zc", uint64(i))
+			id := fmt.Sprintf("%s/zc/%d", engine, i)
+			vc.Scn(id)
+			wd.Begin(id, nil)
+			runZeroconfStress(col, id, r, wd)
 			wd.End()
 		}
 	}
